@@ -17,8 +17,12 @@ def replay(prop_id, path):
     return p.returncode
 
 
+SRCO = {"C01": ("reader",), "C02": ("reader",), "C04": ("reader",), "C05": ("reader",), "C17": ("reader",),
+        "C11": ("sock", "reader"), "C12": ("sock", "reader")}
+
+
 def define(pid, propfile, insts, drivers, text, rule, assumptions=(), diag=None, src=False):
-    SPEC[pid] = dict(propfile=propfile, insts=insts, drivers=drivers, text=text, rule=rule, src=src)
+    SPEC[pid] = dict(propfile=propfile, insts=insts, drivers=drivers, text=text, rule=rule, src=src, srco=SRCO.get(pid, ()))
 
     def run(ck):
         ck.assumptions += list(assumptions)
@@ -29,6 +33,8 @@ def define(pid, propfile, insts, drivers, text, rule, assumptions=(), diag=None,
             ok_tables = ck.tables() if need_tables else True
             if src:
                 ck.source_tie(with_tables=bool(need_tables and ok_tables))
+            for which in SRCO.get(pid, ()):
+                ck.source_tie_obj(which)
             if ok_tables:
                 for inst in insts:
                     ok, where, log = ck.compile_instance(inst)
@@ -86,7 +92,7 @@ define("C12", "Properties/C12.v", ["C02_inst.v"], [("sock", []), ("reader", [])]
        "Theorems: for every well-formed chunked body, decoding oracle and placement of receive boundaries (also reads interleaved with receives, timeouts anywhere) the delivered bytes are the concatenation of the decoded chunk bodies; end to end: the reader over a chunked socket yields the same complete trace as over a file holding the decoded bytes, for every chunking and segmentation (non-expanding decoder).",
        "11+ bodies (binary data with CRLF/hex digits, upper-case sizes, leading zeros, no last-chunk, gzip/zlib/deflate per chunk) x every single cut, sampled/all double cuts, sampled triple cuts, byte-wise",
        ["zlib is an oracle: per-chunk decompression results are recorded from the implementation's zlib"])
-define("C16", "Properties/C16.v", ["C04_inst.v"], [("msg", [])],
+define("C16", "Properties/C16.v", ["C04_inst.v"], [("msg", []), ("reader", [])],
        "Theorem (relational induction over the decoder): for all tables, payloads and option values the two constructions have the same outcome, same names in the same order, equal values except at attributes written by the derived cell-signal field; only 'is the option 2' matters; non-MSM messages are unaffected (per run: the cell-signal field occurs only in MSM layouts).",
        "MSM payloads (random / reserved / full masks) and 15..40 non-MSM types x label options 0,1,2,3")
 define("C17", "Properties/C17.v", ["C02_inst.v"], [("reader", [])],
